@@ -3790,10 +3790,34 @@ func (s *ImmuStore) TruncateUptoTx(minTxID uint64) error {
 			s.logger.Infof("truncating vlog '%d' at offset '%d'", vLogID, offset)
 			err = vlog.DiscardUpto(offset)
 			merr.Append(err)
+
+			if s.vLogCache != nil {
+				// values stored before the discard point may no longer be readable from the vlog,
+				// they must not be served from the value cache either. The vlog is still held,
+				// thus no reader can put back a value it read before the discard
+				s.evictCachedValuesUpto(vLogID, offset)
+			}
 		}
 	}
 
 	return merr.Reduce()
+}
+
+// evictCachedValuesUpto removes from the value cache the values of the vlog stored before the offset
+func (s *ImmuStore) evictCachedValuesUpto(vLogID byte, offset int64) {
+	var keys []interface{}
+
+	s.vLogCache.Apply(func(k, _ interface{}) error {
+		id, off := decodeOffset(k.(int64))
+		if id == vLogID && off < offset {
+			keys = append(keys, k)
+		}
+		return nil
+	})
+
+	for _, k := range keys {
+		s.vLogCache.Pop(k)
+	}
 }
 
 func digest(s []byte) [sha256.Size]byte {
